@@ -303,23 +303,66 @@ Inductive dispatch_result := Served | Err502.
 Definition dispatch (cfg : config) (s : state) (n : node) : dispatch_result :=
   if is_partitioned cfg s n then Err502 else Served.
 
-(* PANIC SITE.  The rehash branch of the healthCheck case calls
+(* PANIC SITE (repaired in /repo by the fix "nil check in gcProxySessionsForNode",
+   findings/C17_nilcheck.diff).  The rehash branch of the healthCheck case calls
    c.gcProxySessions(health.Nodes), which computes (this node + c.nodes) minus
-   health.Nodes and, for every such name, does  n := c.nodes[name]; n.lock.Lock().
-   c.nodes has no entry for this node itself, so when the leader's list does not
-   contain the receiver the run goroutine dies with a nil dereference.  [step]
-   goes on as if the handler had completed; an execution is faithful up to the
-   first event for which this function answers true (after it the node is dead,
-   i.e. takes no more steps). *)
-Definition health_panics (s : state) (idx : nat) : bool :=
+   health.Nodes and hands every such name to gcProxySessionsForNode:
+       n := c.nodes[name]; [fix: if n == nil { return }]; n.lock.Lock(); ...
+   c.nodes holds the OTHER nodes only, so c.nodes[name] is nil exactly for
+   name = this node.  Unrepaired, that is a nil dereference which kills the run
+   goroutine (and the process); repaired, the call returns.
+   [repaired = true] is the code as it is now; [step] (above) is the repaired
+   handler, which always completes.  The unrepaired handler is kept as
+   [step_unrepaired], whose outcome [None] is the panic. *)
+
+(* gcProxySessionsForNode(p) at node self: true = returns normally *)
+Definition gc_for_node (repaired : bool) (self p : node) : bool :=
+  if p =? self then repaired else true.
+
+(* gcProxySessions(active) at node self *)
+Definition gc_proxy_sessions (repaired : bool) (cfg : config) (self : node) (active : list node) : bool :=
+  forallb (gc_for_node repaired self)
+          (filter (fun p => negb (mem p active)) (self :: peers cfg self)).
+
+(* does the delivery of the idx-th health check panic? *)
+Definition health_panics_gen (repaired : bool) (cfg : config) (s : state) (idx : nat) : bool :=
   match nth_error (hnet s) idx with
   | Some h =>
     let l := loc s (h_to h) in
     match electing l with
     | Some _ => false
     | None =>
+      (* the rehash branch is taken ... *)
       negb (h_term h <? term l) && negb (list_eqb (h_sig h) (sig_of (ring_nodes l)))
-      && rehash_skipped l && negb (mem (h_to h) (h_nodes h))
+      && rehash_skipped l
+      (* ... and gcProxySessions(health.Nodes) does not return *)
+      && negb (gc_proxy_sessions repaired cfg (h_to h) (h_nodes h))
     end
   | None => false
   end.
+
+Definition health_panics (cfg : config) (s : state) (idx : nat) : bool := health_panics_gen true cfg s idx.
+Definition health_panics_unrepaired (cfg : config) (s : state) (idx : nat) : bool := health_panics_gen false cfg s idx.
+
+(* sendHealthChecks also calls gcProxySessions, with the leader's own new list *)
+Definition leader_gc_panics (repaired : bool) (cfg : config) (n : node) (active : list node) : bool :=
+  negb (gc_proxy_sessions repaired cfg n active).
+
+(* the code before the fix: None = the run goroutine of a node died *)
+Definition step_unrepaired (cfg : config) (s : state) (e : event) : option state :=
+  match e with
+  | DeliverHealth idx => if health_panics_unrepaired cfg s idx then None else Some (step cfg s e)
+  | _ => Some (step cfg s e)
+  end.
+
+Fixpoint run_unrepaired_from (cfg : config) (s : state) (evs : list event) : option state :=
+  match evs with
+  | [] => Some s
+  | e :: evs' =>
+    match step_unrepaired cfg s e with
+    | Some s' => run_unrepaired_from cfg s' evs'
+    | None => None
+    end
+  end.
+Definition run_unrepaired (cfg : config) (evs : list event) : option state :=
+  run_unrepaired_from cfg (init cfg) evs.
